@@ -92,7 +92,7 @@ func addField(e *zerolog.Event, name, vc string, i int) (*zerolog.Event, interfa
 		v := fmt.Sprintf("v%d", i)
 		return e.Str(name, v), v
 	case "quote":
-		v := []string{"two words", "q\"uote", "back\\slash", "tab\there", "café", "", "line\nbreak"}[i%7]
+		v := []string{"two words", "q\"uote", "back\\slash", "tab\there", "café", "", "line\nbreak", "del\x7fdel", "tilde~tilde", "u80\u0080", "us\x1f"}[i%11]
 		return e.Str(name, v), v
 	case "int":
 		v := []int64{0, -7, 9007199254740993, 42}[i%4]
@@ -407,9 +407,29 @@ func (f *consoleFam) play(l *Line, out *rec) error {
 		}
 		e.Send()
 		mk := func(o *bytes.Buffer) zerolog.ConsoleWriter {
-			w := zerolog.ConsoleWriter{Out: o, NoColor: true, TimeLocation: curTset.loc, TimeFormat: curTset.layout, PartsExclude: actuals(ren, c.Cfg.PExcl), FieldsOrder: actuals(ren, c.Cfg.FOrder), FieldsExclude: actuals(ren, c.Cfg.FExcl)}
-			if !c.Deft {
-				w.PartsOrder = append([]string{}, c.Cfg.Parts...)
+			set := func(w *zerolog.ConsoleWriter) {
+				w.Out, w.NoColor, w.TimeLocation, w.TimeFormat = o, true, curTset.loc, curTset.layout
+				w.PartsExclude, w.FieldsOrder, w.FieldsExclude = actuals(ren, c.Cfg.PExcl), actuals(ren, c.Cfg.FOrder), actuals(ren, c.Cfg.FExcl)
+				if !c.Deft {
+					w.PartsOrder = append([]string{}, c.Cfg.Parts...)
+				}
+			}
+			var w zerolog.ConsoleWriter
+			if ci%2 == 1 {
+				w = zerolog.NewConsoleWriter(set) // the constructor and the struct literal must behave alike
+			} else {
+				set(&w)
+			}
+			if len(w.FieldsOrder) > 1 {
+				// a COPY of the writer with another field order is used first: writers are values, a copy shares nothing
+				// with the original that the original's output depends on
+				w2 := w
+				w2.Out = &bytes.Buffer{}
+				w2.FieldsOrder = make([]string, len(w.FieldsOrder))
+				for i, f := range w.FieldsOrder {
+					w2.FieldsOrder[len(w.FieldsOrder)-1-i] = f
+				}
+				w2.Write(in.Bytes())
 			}
 			return w
 		}
